@@ -639,6 +639,7 @@ class Session:
         rng = self.rng
         st = self.st
         st["nonce"] = nonce
+        st["t0"] = st["now"]
         algo = st["algo"]
         qop = rng.random() < 0.8
         st["qop"] = qop
@@ -666,6 +667,19 @@ class Session:
                          for _ in range(rng.choice([1, 2, 3]))]
             for md in modes:
                 self.check(st, nc_mode=md)
+            # the lifetime the application asks for through each entry point (different from the daemon default):
+            # the clock crosses (or just does not cross) the requested lifetime but not the default one, and counts
+            # above the lifetime's numeric value are presented
+            L = rng.choice([2, 5, 30, 2, 5, 7])
+            age = L * 1000 + rng.choice([-1000, -1, 0, 1, 1, 500, 1000])
+            st["now"] = (st["t0"] + age) % U64
+            self.emit("clock %d" % st["now"], kind="clock", now=st["now"])
+            apis = self.all_apis(algo, qop)
+            rng.shuffle(apis)
+            for api in apis[:rng.choice([3, 4, 6])]:
+                self.check(st, api=api, timeout=L, nc_mode=rng.choice([None, "skip31", "skip31"]))
+            for api in apis[-2:]:
+                self.check(st, api=api, timeout=L + rng.choice([1, 2, 40]), nc_mode="skip31")
             step = rng.choice([1, 4999, 5001, 89999, 90001, 299999, 300001, 1000000, U48 // 2, U48 - 1])
             st["now"] = (st["now"] + step) % U64
             self.emit("clock %d" % st["now"], kind="clock", now=st["now"])
@@ -677,6 +691,16 @@ class Session:
     def reqinfo(self, method, target, strict):
         url, args = ref_target(target, strict)
         return {"method": method, "target": target, "url": url, "args": args}
+
+    def all_apis(self, algo, qop):
+        apis = ["check3", "digest3"]
+        if qop:
+            apis.append("check2")
+            if algo == "MD5":
+                apis += ["check", "cdigest"]
+            if algo in ("MD5", "SHA-256"):
+                apis.append("cdigest2")
+        return apis
 
     def api_plan(self, rng, algo, qop):
         apis = ["check3", "digest3", "check3"]
@@ -696,6 +720,8 @@ class Session:
             return hi, "%08x" % hi
         if mode == "skip":
             c = hi + rng.choice([2, 5, 30])
+        elif mode == "skip31":
+            c = hi + 31
         elif mode == "jump64":
             c = hi + rng.choice([63, 64, 65])
         elif mode == "far":
@@ -757,8 +783,8 @@ class Session:
         r = rng.random()
         sem[b"response"] = resp if r < 0.8 else resp.upper() if r < 0.9 else (resp[1:] if resp[:1] == b"0" else resp)
         # the application's side
-        call = {"realm": realm, "user": user, "secret": ("pw", pw), "timeout": timeout if timeout is not None else rng.choice([0, 0, 0, 300, 1000]),
-                "max_nc": rng.choice([0, 0, 0, 100000, U32 - 1]), "mqop": rng.choice([3, 3, 2 if qop else 1, 7]),
+        call = {"realm": realm, "user": user, "secret": ("pw", pw), "timeout": timeout if timeout is not None else rng.choice([0, 0, 2, 30, 300, 1000]),
+                "max_nc": rng.choice([0, 0, 0, 100000, U32 - 1, 3000]), "mqop": rng.choice([3, 3, 2 if qop else 1, 7]),
                 "malgo3": rng.choice([127, 127, ALGO3[algo], ALGO3[algo] | 64 | rng.choice([1, 2, 4])])}
         expect = None
         req_method, req_target, conn_addr = method, target, None
@@ -1409,7 +1435,10 @@ class Spec:
                "distinct_nontrivial": len(stats),
                "rule": "one evaluation = one daemon life (a nonce issued by the real calculate_add_nonce inside a request, the valid "
                        "credential through 2-4 API functions in independent renderings, 8-12 labelled single-field mutations, count "
-                       "window / replay probes, clock steps across the timeout), run on the real daemon and on the Lean model, "
+                       "window / replay probes, a lifetime phase in which every applicable entry point (check3, check_digest3, check, check2, "
+                       "check_digest, check_digest2) is called with a nonce_timeout of 2..30 s, different from the daemon default, while "
+                       "the clock stands at that lifetime -1000..+1000 ms and counts above the lifetime's numeric value are presented, "
+                       "then clock steps across the default timeout), run on the real daemon and on the Lean model, "
                        "compared line by line (result class, request as seen by the handler, final nonce table) and judged by the "
                        "RFC reference oracle; distinct_nontrivial = number of distinct (API function, mutation, oracle reason, "
                        "answer of the code) tuples that occurred (listed in `branches`)",
